@@ -242,7 +242,9 @@ pub struct Broken {
     pub wrap: u8,
 }
 
-pub const BREAKERS: [&str; 58] = [
+pub const BREAKERS: [&str; 62] = [
+    // two arguments for the profile groups: one of the two is the group of the profile that is NOT active in this build
+    "{D(a)(b)}", "{R(a)(b)}", "{debug({m})({l})}", "{release({m})({l})}",
     // a malformed DEFAULT of an MDC formatter (nested formatter, stray brace, lone backslash, three arguments)
     "{X(k)({m})}", "{X(k)(n/a}x)}", "{mdc(k)(C:\\temp)}", "{X(k)(a)(b)}",
     "{m:99999999999999999999.3}", "{m:_<18446744073709551616.3}", "{m:3.99999999999999999999}", "{l:>99999999999999999999.99999999999999999999}", "{(x):18446744073709551616}", "{m:0.18446744073709551616}",
@@ -515,6 +517,80 @@ pub fn check_teardown(tmp: &std::path::Path, c: &Teardown, obs: &mut Obs) -> Cas
     crate::child::absorb(out, obs)
 }
 
+// ---- a message argument that encodes records of its own -----------------------------------------------------------
+
+/// A `Display` argument of the message encodes two records of its own (with arguments) through pattern encoders on
+/// the same thread while the outer record is being encoded (a value whose Display impl logs): neither level may panic
+/// or fail, whatever the two patterns are (well-formed or broken).
+#[derive(Serialize, Deserialize, Debug, Clone)]
+pub struct NestedMsg {
+    pub outer: String,
+    pub inner: String,
+    pub text: String,
+    /// the inner records go through the SAME encoder object as the outer one
+    pub same_encoder: bool,
+}
+
+pub fn nested_strategy() -> impl Strategy<Value = NestedMsg> {
+    let pat = || {
+        prop_oneof![
+            4 => pattern(0.3).prop_map(|p| print(&p, false)),
+            2 => prop::sample::select(vec!["{m}", "{m}{n}", "{m:>12}", "{m:<6.9}", "{({m}):>20}", "{h({m})}", "{l} {m} {t}", "{d} {m}", "{X(k)(none)} {m:.3}"]).prop_map(|s| s.to_string()),
+            1 => (any::<u16>()).prop_map(|b| format!("{{m}} {}", pick(&BREAKERS[..], b))),
+        ]
+    };
+    (pat(), pat(), "[a-zé ]{0,12}", prop::bool::ANY).prop_map(|(outer, inner, text, same_encoder)| NestedMsg { outer, inner, text, same_encoder })
+}
+
+struct EncodingArg<'a> {
+    enc: &'a PatternEncoder,
+    ok: &'a std::cell::Cell<u32>,
+    formatted: &'a std::cell::Cell<u32>,
+}
+
+impl<'a> std::fmt::Display for EncodingArg<'a> {
+    fn fmt(&self, f: &mut std::fmt::Formatter) -> std::fmt::Result {
+        use log4rs::encode::Encode;
+        self.formatted.set(self.formatted.get() + 1);
+        for i in 0..2 {
+            let mut w = CapW::new(vec![]);
+            w.limit = Some(1 << 20);
+            if self.enc.encode(&mut w, &log::Record::builder().args(format_args!("inner-{}-{}", i, "arg")).level(log::Level::Warn).target("inner").build()).is_ok() {
+                self.ok.set(self.ok.get() + 1);
+            }
+        }
+        f.write_str("<arg>")
+    }
+}
+
+pub fn check_nested_msg(c: &NestedMsg, obs: &mut Obs) -> CaseResult {
+    use log4rs::encode::Encode;
+    let before = library_panics_total();
+    let encs = match catch(|| (PatternEncoder::new(&c.outer), PatternEncoder::new(&c.inner))) {
+        Ok(e) => e,
+        Err(p) => return fail("C11:panic:construct", format!("constructing {:?} / {:?} panicked: {}", c.outer, c.inner, p)),
+    };
+    let ok = std::cell::Cell::new(0u32);
+    let formatted = std::cell::Cell::new(0u32);
+    let arg = EncodingArg { enc: if c.same_encoder { &encs.0 } else { &encs.1 }, ok: &ok, formatted: &formatted };
+    let mut w = CapW::new(vec![]);
+    w.limit = Some(1 << 20);
+    let r = catch(|| encs.0.encode(&mut w, &log::Record::builder().args(format_args!("{}{}", arg, c.text)).level(log::Level::Info).target("outer").build()));
+    obs.sub_evals += 3;
+    obs.nontrivial = true;
+    obs.class(if c.same_encoder { "nested:same-encoder" } else { "nested:two-encoders" });
+    match r {
+        Err(p) => return fail("C11:panic:encode", format!("encoding a record whose argument encodes records of its own (outer {:?}, inner {:?}) panicked: {}", c.outer, if c.same_encoder { &c.outer } else { &c.inner }, p)),
+        Ok(Err(e)) => return fail("C11:encode-error", format!("outer {:?}, inner {:?}: encode returned Err: {}", c.outer, c.inner, e)),
+        Ok(Ok(())) => {}
+    }
+    // (a pattern may show the message several times or not at all; every time the argument is formatted, two inner encodes run)
+    ensure!(ok.get() == 2 * formatted.get(), "C11:encode-error", "outer {:?}, inner {:?}: {} of the {} nested encodes reported an error", c.outer, c.inner, 2 * formatted.get() - ok.get(), 2 * formatted.get());
+    obs.class_if(formatted.get() > 0, "nested:argument-formatted");
+    ensure!(library_panics_total() == before, "C11:panic:caught-inside", "outer {:?}, inner {:?}: a panic was raised and caught again inside the library", c.outer, c.inner);
+    Ok(())
+}
+
 pub fn run(run: &Run) {
     if run.worker.0 == 0 {
         let t = run.tmp.clone();
@@ -530,6 +606,8 @@ pub fn run(run: &Run) {
     if sweep_date_directives(run) {
         run.exhaustive("all strftime directives %<modifier><c> for 16 modifiers x printable ASCII c, in three date formatter shapes");
     }
+    run.run_replays::<NestedMsg>("nested-message", &check_nested_msg);
+    run.search("nested-message", run.tier.pick(3_000, 200_000), nested_strategy(), &check_nested_msg);
     run.run_replays::<Broken>("broken", &check_broken);
     run.run_replays::<Soup>("soup", &check_soup);
     let max_len = run.tier.pick(5, 6);
@@ -545,6 +623,7 @@ pub fn replay(part: &str, case: serde_json::Value) -> Option<CaseResult> {
     match part {
         "exhaustive" | "date-directives" => Some(check_str(&serde_json::from_value(case).ok()?, &mut Obs::default())),
         "broken" => Some(check_broken(&serde_json::from_value(case).ok()?, &mut Obs::default())),
+        "nested-message" => Some(check_nested_msg(&serde_json::from_value(case).ok()?, &mut Obs::default())),
         "soup" => Some(check_soup(&serde_json::from_value(case).ok()?, &mut Obs::default())),
         "broken-stderr" => {
             let tmp = std::env::temp_dir().join(format!("lv-replay-{}", std::process::id()));
